@@ -1294,7 +1294,7 @@ def _whole_file_write(self, rule, fn, descr):
 Run.whole_file_write = _whole_file_write
 
 
-def closure_truth_table(cl, classify, get_pats=("std::collections::hash::map::HashMap::get", "alloc::collections::btree::map::BTreeMap::get")):
+def closure_truth_table(cl, classify, get_pats=("std::collections::hash::map::HashMap::get", "alloc::collections::btree::map::BTreeMap::get"), call_atoms=None):
     """Evaluate a small loop-free bool closure as a function of atoms.  `classify(body, cmp_site)` names the atom a comparison tests
     (e.g. "K": the keys are equal) or returns None; the result of a map `get` is the atom "S" (Some).  Returns
     ({atom: True/False, ...} as a frozenset of items → returned bool) or None if the closure cannot be interpreted."""
@@ -1306,7 +1306,9 @@ def closure_truth_table(cl, classify, get_pats=("std::collections::hash::map::Ha
         if a is None:
             return None
         sites[(c["bb"], c["d"])] = (a, c["op"])
-    atoms = sorted({a for a, _ in sites.values()} | ({"S"} if any(b["term"]["k"] == "call" and callee_matches(b["term"], list(get_pats)) for b in cl.blocks) else set()))
+    call_atoms = call_atoms or {}
+    atoms = sorted({a for a, _ in sites.values()} | ({"S"} if any(b["term"]["k"] == "call" and callee_matches(b["term"], list(get_pats)) for b in cl.blocks) else set())
+                   | {a for pat, a in call_atoms.items() if any(b["term"]["k"] == "call" and callee_matches(b["term"], [pat]) for b in cl.blocks)})
     if len(atoms) > 4:
         return None
     table = {}
@@ -1353,6 +1355,8 @@ def closure_truth_table(cl, classify, get_pats=("std::collections::hash::map::Ha
                         env[d] = env_atoms[a] if op == "Eq" else (not env_atoms[a])
                     elif callee_matches(t, list(get_pats)):
                         env[("opt", d)] = env_atoms["S"]
+                    elif any(callee_matches(t, [pat]) for pat in call_atoms):
+                        env[d] = env_atoms[next(a for pat, a in call_atoms.items() if callee_matches(t, [pat]))]
                     else:
                         env[d] = None
                 nxt = [x for x, k in g.succ[bb] if k != "unwind"] or [x for x, _ in g.succ[bb]]
